@@ -8,7 +8,7 @@ ADD = {
  "C01": "Delivered content is also compared, through an independent header/body/attachment splitter, with the message as composed before the library parsed anything; links may coalesce back-to-back writes.",
  "C03": "A further layer lets the remote leave (EOF) at a chosen byte of a chosen unit; other proposal codes (FD, FA, FB).",
  "C04": "Further damage kinds: empty block, zero-sum block, 256/512 bytes more in the header; gzip experiment on both sides with the standard library's reader as reference.",
- "C05": "The peer also requests transfers from a non-zero offset, may quit CMS style out of turn, and issues a challenge in a fifth of the slave-side plans so that ;FW carries hashes; the forwarder list must announce every configured address.",
+ "C05": "The peer also requests transfers from a non-zero offset, may quit CMS style out of turn, and issues a challenge in a fifth of the slave-side plans so that ;FW carries hashes; the forwarder list must announce every configured address. In 15 % of the plans the peer's mail arrives while the session runs: it says FF in its first 1-3 turns and proposes later.",
  "C06": "A second arm runs 2-4 goroutines with their own Writers/Readers at once, with plan-driven pauses in front of any statement of the instrumented codec (yield injection); the Close verdict is asked three times; io.EOF from a Read with an empty buffer must be the truth; a confirmed hang is a violation.",
  "C08": "The Close verdict is asked three times and must not change.",
  "C10": "SetUnread is also repeated on one message object; MIDs that differ in letter case only.",
@@ -18,8 +18,8 @@ ADD = {
  "C14": "Further arms: ARQ frames overtaking CONNECTED across the two TCP sockets, runs of more than 4096 unread frames, a second application goroutine issuing commands during writes, quiet links (> 60 s), listener and dialer on one TNC with a background accept loop.",
  "C15": "A run may hold several sessions through one listener (sequential and overlapping), connections closed twice or from both sides, and the application also consumes connections through io.Copy, WriterTo/ReaderFrom and bufio.",
  "C16": "A quarter of the plans run 2-3 stations of one process that log in at the same time, with plan-driven pauses in front of any statement of the instrumented fbb code (yield injection); passwords to 1200 bytes, challenges to 300 digits.",
- "C17": "A fifth of the plans run the library station against the reference peer, which requests resumed transfers; a report must name a message in the direction it travels.",
- "C19": "Half of the concurrent histories run with plan-driven pauses inside the registry calls (yield injection; a lock-counting sync shim keeps pauses out of critical sections); parsed URLs are changed by the caller afterwards; targets whose upper-casing changes their length; ports up to 65535.",
+ "C17": "A fifth of the plans run the library station against the reference peer, which requests resumed transfers; a report must name a message in the direction it travels; the recording updater reads MID, sizes and title of the named proposal unlocked, for the race detector.",
+ "C19": "Half of the concurrent histories run with plan-driven pauses inside the registry calls (yield injection; a lock-counting sync shim keeps pauses out of critical sections); parsed URLs are changed by the caller afterwards; targets whose upper-casing changes their length; ports up to 65535; a quarter of the concurrent histories use scheme spellings that differ in letter case only and are accepted if linearizable against either a per-spelling or a case-insensitive registry model.",
 }
 TECH_ADD = {
  "C06": " + yield injection (pauses at instrumented statement boundaries) for concurrent use of independent codecs",
